@@ -257,9 +257,32 @@ def _h_float_coefficients(n: int) -> bool:
     return all([_float_coefficients(n, d, a) for d in (7, 8, 3) for a in ("H2O", "[Fe(CN)6]-3")])
 
 
+import numpy as _np  # noqa
+
+
 def _float_coefficients(n, d, a):
     k = [j for j in range(1, 25) if n == j][0]  # concrete copy of n: one path per value, plain python floats below (no float modelling)
+    if d == 8:
+        # single-precision numpy scalars (exact for k/8) print as the numbers they are
+        x32 = _np.float32(k / 8)
+        e32 = Equilibrium({a: x32, "B": 1}, {"P": 1}, checks=())
+        b32 = Equilibrium.from_string(str(e32), None, globals_=False, checks=())
+        if _plain(b32.reac) != {a: k / 8, "B": 1}:
+            return False
     x = k / d
     r = Reaction({a: x, "B": 1}, {"P": 2 * x}, checks=())
     back = Reaction.from_string(str(r), None, globals_=False, checks=())
     return _plain(back.reac) == {a: x, "B": 1} and _plain(back.prod) == {"P": 2 * x} and back == r
+
+
+def _h_big_int_param(n: int) -> bool:
+    """
+    pre: 1 <= n <= 30
+    post: _
+    """
+    # an integer parameter is read exactly as written, also beyond 2**53 (it never passes through a float)
+    k = [j for j in range(1, 31) if n == j][0]
+    big = 2 ** 60 + k
+    rb = to_reaction("A -> B; " + str(big), None, "->", Reaction, {})
+    r2 = Reaction({"A": 1}, {"B": 1}, big, checks=())
+    return rb.param == big and type(rb.param) is int and Reaction.from_string(str(r2), None, globals_={}) == r2
